@@ -224,6 +224,7 @@ FIELD_POOL = {
     "NE": ("NE", "1", 'OPT∧ENUM["1E5","2",Ab]∧TYPE[NUMBER]', None),
     "EN": ("EN", "1", "OPT∧TYPE[NUMBER]∧ENUM[1,2]", None),
     "PCT": ("PCT", "5", "OPT∧TYPE[NUMBER]∧RANGE[0,100]", None),
+    "TOL": ("TOL", "0.001", "OPT∧TYPE[NUMBER]∧RANGE[0.0000001,0.01]", None),
     "NAME": ("NAME", '"x"', "REQ", "INDEXER"),
     "NOTE": ("NOTE", '"x"', "OPT", None),
     "TXT": ("TXT", '"x"', "OPT∧TYPE[STRING]", None),
@@ -281,7 +282,7 @@ def load_schema_text(text):
 HAND_SCHEMAS = [
     {"name": "SCHEMA_A", "uf": "REJECT", "fields": ["STATUS", "COUNT", "NAME", "NOTE"]},
     {"name": "SCHEMA_B", "uf": "WARN", "fields": ["STATE", "AMB", "RCOUNT", "TAGS", "FLAG", "TAGS2", "TAGS3"]},
-    {"name": "SCHEMA_C", "uf": "IGNORE", "fields": ["BOTH", "NE", "EN", "PCT", "TF"]},
+    {"name": "SCHEMA_C", "uf": "IGNORE", "fields": ["BOTH", "NE", "EN", "PCT", "TOL", "TF"]},
     {"name": "SCHEMA_D", "uf": "BOGUS", "targets": ["CUSTOM"], "default_target": "RISK_LOG",
      "fields": ["STATUS", "ROUTED", "MULTI", "CUST", "FREE", "PLAIN", "KIND"]},
     {"name": "SCHEMA_E", "uf": None, "fields": ["SLUG", "CONFL", "SHORT", "DAY", "TXT", "WEIRD", "COUNT"]},
@@ -375,7 +376,12 @@ RESPELLINGS = [
 ]
 
 
+EMPTY = ("EMPTY",)      # `KEY::` with nothing after it (text routes only: what the reader makes of it is the reader's business)
+
+
 def render_value(v, sp: Spelling, depth: int, in_list=False) -> str:
+    if v == EMPTY:
+        return ""
     if v is None:
         return "null"
     if isinstance(v, bool):
@@ -545,6 +551,12 @@ def field_value_pool(fd, api=False):
                             k += 1
                         if k:
                             vals += [a[:k], a[:k].lower()]
+        if isinstance(c, C.RangeConstraint):
+            # both sides of both bounds, and numbers whose canonical spelling needs an exponent or many decimals
+            for b in (c.min_value, c.max_value):
+                if isinstance(b, (int, float)) and not isinstance(b, bool):
+                    vals += [b, b * 2, b / 2, b + 1, b - 1, float(b) * 1.0000001, float(b) * 0.9999999]
+            vals += [2e-07, 1e-07, 5e-08, 1.2345e-05, 3e-07, 0.0, -0.0, 1e16, 123456789012345680.0, 1e-300]
         if isinstance(c, C.TypeConstraint) and c.expected_type == "NUMBER":
             vals += NUM_STRINGS
     vals += GENERIC_STRINGS + ["42", "1e5", " 7 "] + WRONG_KINDS + (API_ONLY_KINDS if api else [])
@@ -554,6 +566,22 @@ def field_value_pool(fd, api=False):
         if k not in seen:
             seen.add(k)
             out.append(v)
+    return out
+
+
+def priority_values(fd):
+    """values every run uses for this field whatever the sampling budget: both sides of RANGE bounds and numbers whose canonical
+    spelling needs an exponent or more than six decimals (a verdict that depends on how the emitter spells the number)."""
+    from octave_mcp.core import constraints as C
+    chain = fd.pattern.constraints.constraints if (fd is not None and fd.pattern is not None and fd.pattern.constraints is not None) else []
+    out = []
+    for c in chain:
+        if isinstance(c, C.RangeConstraint):
+            for b in (c.min_value, c.max_value):
+                if isinstance(b, (int, float)) and not isinstance(b, bool):
+                    out += [b, float(b) * 2, float(b) / 2]
+            out += [2e-07, 1.2345e-05, 3e-07, 1e16]
+    out.append(EMPTY)        # every field once with an empty value
     return out
 
 
